@@ -144,7 +144,7 @@ func knownMatch(c *drive.Case, out *drive.Outcome) string {
 	}
 	if rec.Known("C05-F1") && len(out.CohortRisk) > 0 {
 		switch out.Symptom {
-		case "missing-request", "not-complete", "extra-request", "flows", "ends", "errors":
+		case "missing-request", "not-complete", "extra-request", "flows", "ends", "errors", "complete-early":
 			return "C05-F1"
 		}
 	}
